@@ -191,6 +191,23 @@ def fold_shape_ok(out, classes):
     return None
 
 
+class _Declines:
+    """configuration: a folder whose evaluate() hook answers 'could not evaluate' (None, the
+    documented refusal) for some constant operands -- here those that would become floats"""
+
+    def evaluate(self, expr):
+        v = super().evaluate(expr)
+        return None if isinstance(v, float) else v
+
+
+class ExactFolder(_Declines, ConstantFoldingMapper):
+    pass
+
+
+class ExactCommutativeFolder(_Declines, CommutativeConstantFoldingMapper):
+    pass
+
+
 @check("C11.fold")
 def c_fold(ctx, case):
     (e,) = case
@@ -198,6 +215,9 @@ def c_fold(ctx, case):
         return
     for name, mk, classes in (("fold", ConstantFoldingMapper, (p.Sum,)),
                               ("commutative-fold", CommutativeConstantFoldingMapper,
+                               (p.Sum, p.Product)),
+                              ("declining-fold", ExactFolder, (p.Sum,)),
+                              ("declining-commutative-fold", ExactCommutativeFolder,
                                (p.Sum, p.Product))):
         ctx.case(None)
         ctx.count(name + "_calls")
@@ -423,7 +443,10 @@ def workload(ctx):
                     v = rng.choice(V)
                     fs.append(rng.randint(-3, 4) if u < 0.3 else v if u < 0.6
                               else p.Power(v, rng.randint(2, 3)) if u < 0.85
-                              else p.Quotient(1, p.Sum((v, 1))))
+                              else p.Quotient(1, p.Sum((v, 1))) if u < 0.93
+                              # a quotient factor the distributor did not prepare: numerator != 1
+                              else p.Quotient(rng.choice([2, -3, rng.choice(V)]),
+                                              rng.choice([v, p.Sum((v, 1))])))
                 return fs[0] if len(fs) == 1 else p.Product(tuple(fs))
             e = p.Sum(tuple(term() for _ in range(rng.randint(1, 5))))
             ctx.case(normal.typed_key(e), True, n=0)
